@@ -159,7 +159,16 @@ def _covered(sol, s, c, r, skip):
 def make_desc(seed, i, tier):
     import random
     rng = random.Random('fvmon/C03/%s/%s' % (seed, i))
-    return gw.gen(rng, whole_col=(tier == 'thorough' and i % 40 == 0))
+    desc = gw.gen(rng, whole_col=(tier == 'thorough' and i % 40 == 0))
+    if i % 3 == 0:
+        # constants of very small and very large magnitude (stored values must
+        # survive loading from a file as they do from a dictionary)
+        nums = [(sh_, k) for bk in desc['books'] for sh_ in bk['sheets']
+                for k, c in sorted(sh_['cells'].items())
+                if isinstance(c.get('v'), float)]
+        for sh_, k in rng.sample(nums, min(len(nums), 3)):
+            sh_['cells'][k]['v'] = rng.choice((1.5e-20, -2.5e-17, 3e-16, 1.25e+20, 7e-300))
+    return desc
 
 
 # -- sheet-less workbooks: A1 and relative R1C1 spellings are the same formula ------
